@@ -1,6 +1,10 @@
 package graphql
 
-import "github.com/graphql-go/graphql/verifhook"
+import (
+	"sort"
+
+	"github.com/graphql-go/graphql/verifhook"
+)
 
 type SchemaConfig struct {
 	Query        *Object
@@ -125,6 +129,8 @@ func NewSchema(config SchemaConfig) (Schema, error) {
 		}
 	}
 
+	sortImplementations(schema.implementations)
+
 	// Enforce correct interface implementations
 	for _, ttype := range schema.typeMap {
 		if ttype, ok := ttype.(*Object); ok {
@@ -169,6 +175,8 @@ func (gq *Schema) AddImplementation() error {
 			}
 		}
 	}
+
+	sortImplementations(gq.implementations)
 
 	// Enforce correct interface implementations
 	for _, ttype := range gq.typeMap {
@@ -571,4 +579,13 @@ func isTypeSubTypeOf(schema *Schema, maybeSubType Type, superType Type) bool {
 
 	// Otherwise, the child type is not a valid subtype of the parent type.
 	return false
+}
+
+// sortImplementations orders every interface's implementers by name: they
+// are collected by iterating the type map, and possibleTypes / did-you-mean
+// suggestions must not depend on map iteration order.
+func sortImplementations(implementations map[string][]*Object) {
+	for _, impls := range implementations {
+		sort.Slice(impls, func(i, j int) bool { return impls[i].Name() < impls[j].Name() })
+	}
 }
